@@ -70,18 +70,18 @@ package workflow
 // created; the contents of the maps and outputDone are shared between the goroutines of the
 // steps and protected by lock.
 //@ fields loopState guarded_by(lock): outputDone
-//@ fields loopState guarded_contents(lock): data waitingOutputs
+//@ fields loopState guarded_contents(lock): data waitingOutputs completedSteps
 //@ fields loopState frozen_contents: runningSteps
 //@ fields loopState neverclosed: recentErrors
 //@ fields loopState received_by(execute): recentErrors
-//@ fields loopState immutable: logger config lock data dag callableFunctions runningSteps outputDataChannel waitingOutputs context recentErrors cancel workflowContext lifecycles
+//@ fields loopState immutable: logger config lock data dag callableFunctions runningSteps outputDataChannel waitingOutputs context recentErrors cancel workflowContext lifecycles completedSteps
 //
 // known(l, s): the data model of run l has an entry for step s (set when the entry is created; an
 // entry is never removed, so the ghost only grows)
 //@ ghost known(l *loopState, s string) bool
 //@ pred wfloop(l *loopState) = l != nil && l.logger != nil && l.config != nil && l.lock != nil && l.data != nil && l.dag != nil && \
 //@     l.runningSteps != nil && l.outputDataChannel != nil && l.waitingOutputs != nil && l.context != nil && \
-//@     l.recentErrors != nil && l.cancel != nil && chcap(l.outputDataChannel) == 1 && chcap(l.recentErrors) == 20
+//@     l.recentErrors != nil && l.cancel != nil && chcap(l.outputDataChannel) == 1 && chcap(l.recentErrors) == 20 && l.completedSteps != nil
 //
 //@ lockinv loopState.lock
 //@   inv [output-handed-over-at-most-once] !outputDone ==> chlen(outputDataChannel) == 0 && !closed(outputDataChannel)
@@ -159,8 +159,12 @@ package workflow
 //@   requires wfloop(l)
 //@   ensures [a-queued-error-is-reported] old(chlen(l.recentErrors)) >= 1 ==> result != nil
 //
+// A step reports finished before its completion notification gets the run lock; until the run loop
+// has processed that notification the step counts as running (what it produced can still make nodes
+// ready), so the no-progress error cannot fire in that window.
 //@ func (*loopState).countStates
 //@   requires wfloop(l) && held(l.lock) && lockinv(l)
+//@   site arith#4 assert [a-step-is-counted-as-finished-only-when-its-completion-has-been-processed] l.completedSteps[stepID]
 //
 // Errors are queued for Execute without ever blocking the reporting goroutine (it holds the run lock):
 // the error is in the queue afterwards, or the queue is full - then the run is failing with the twenty
@@ -333,7 +337,7 @@ package workflow
 //@   ensures [input-is-validated-before-anything-runs] called(Unserialize, 1) && callrecv(Unserialize, 1) == any(e.input) && callarg(Unserialize, 1, 0) == serializedInput
 //@   ensures [invalid-input-starts-nothing] callres(Unserialize, 1, 1) != nil ==> result2 != nil && !called(Start, 1)
 //@   ensures nolocks()
-//@   site mapwrite#5 set known(l, stepID)
+//@   site mapwrite#6 set known(l, stepID)
 //@   site call Start#1 assert [steps-see-the-normalised-input] l.data["input"] == callres(Serialize, 1, 0) && callrecv(Serialize, 1) == any(e.input) && \
 //@        callarg(Serialize, 1, 0) == callres(Unserialize, 1, 0) && callres(Serialize, 1, 1) == nil && callres(Unserialize, 1, 1) == nil
 //@   site call Unlock#2 assert [a-run-builds-its-own-state] fresh(l) && fresh(l.lock) && fresh(l.data) && fresh(stepsOf(l)) && fresh(l.runningSteps) && \
